@@ -39,6 +39,10 @@ def run_history(ctx, res, rng, hid):
         files[rel] = "\n".join(ls)
     if rng.random() < 0.5:
         files = G.add_exotic_chars(rng, files)
+    if rng.random() < 0.5:
+        # a new note whose first word has the shape of a date without being one (the ZID takes its place in file and index alike)
+        rel = sorted(files)[0]
+        files[rel] = files[rel].rstrip("\n") + "\n\n- 2024-02-30 starts with a date-shaped word\no P1 2023-13-01 another one\n"
     G.write_dir(zdir, files)
     w = H.World(ctx, rng, zdir, cfg)
     if w.run("db", "create") != 0:
